@@ -165,4 +165,16 @@ OneToOne ==
 AuthRefines == \A i \in Ids : Authorized(i) => PAuthorized(i)
 \* ... and (conformance, not needed for the property) never narrower either
 AuthExact   == \A i \in Ids : Authorized(i) <=> PAuthorized(i)
+
+\* ---------------------------------------------------------------- client side (growth, DESIGN.md 6.6)
+\* snap-tun/src/client.rs: when the token source publishes a refreshed token, the endpoint's
+\* identity_registration_loop registers the SAME identity again under the new token (a new key).
+\* That is a Register(k, i, life) with k # the key i holds; what the client relies on:
+\*   a registration never touches the tunnels or the clients' sessions (no new handshake is needed) ...
+RegisterKeepsTunnels == [][ev'.kind = "register" => (tun' = tun /\ cli' = cli)]_vars
+\*   ... and renewing BEFORE the lapse is seamless: the identity is authorised before and after, and the
+\*   superseded token key no longer maps to it (OneToOne), so traffic keeps flowing across the renewal
+RenewalIsSeamless == [][(ev'.kind = "register" /\ sess[ev'.id] > now)
+                         => (sess'[ev'.id] > now' /\ pauth'[ev'.id] > now'
+                             /\ Cardinality({k \in Keys : assoc'[k] = ev'.id}) = 1)]_vars
 =============================================================================
